@@ -137,7 +137,8 @@ def ham_programs(seed, tids, quick=True):
             form = {"t": rng.choice(["dict", "dict_rev", "callable"]), "V": rng.choice(["dict", "dict_rev", "callable"]),
                     "U": rng.choice(["dict", "callable"]), "mu": rng.choice(["dict", "callable"])}
             prog = {"driver": "hams", "tid": tids(), "sym": sym, "model": model, "sites": sites, "edges": ed,
-                    "t": [rng.choice([1, 2, 3, 7]) for _ in ed], "V": [rng.choice([0, 5, 7]) for _ in ed],
+                    # (some bonds carry no two-site coupling at all - a cut or diluted lattice: their share of the on-site terms stays)
+                    "t": [rng.choice([1, 2, 3, 7, 0]) for _ in ed], "V": [rng.choice([0, 5, 7]) for _ in ed],
                     "U": [60 * rng.randint(1, 4) for _ in sites], "mu": [60 * rng.randint(0, 3) for _ in sites], "form": form}
             multi = rng.random() < 0.25
             if multi:
